@@ -225,7 +225,7 @@ def c_chi2_rows(ctx, args):
     return None
 
 
-CHECKS = {'chi2_rows': c_chi2_rows, 'chi2_product': c_chi2_product, 'pair': c_pair, 'clifford': c_clifford, 'maps_states': c_maps_states, 'resample': c_resample, 'chi2': c_chi2}
+CHECKS = {'chi2_rows': c_chi2_rows, 'chi2_product': c_chi2_product, 'pair': c_pair, 'clifford': c_clifford, 'maps_states': c_maps_states, 'resample': c_resample, 'chi2': c_chi2, 'coin_fair': __import__('props.C06', fromlist=['c_coin_fair']).c_coin_fair}
 
 
 def run(ctx):
@@ -257,3 +257,10 @@ def run(ctx):
         do(ctx, 'chi2_rows', ['np', 20000 if ctx.tier == 'quick' else 400000, 16], nontrivial='chi_rows_np')
     if not getattr(ctx, 'is_worker', False):
         do(ctx, 'chi2_rows', ['torch', 8000 if ctx.tier == 'quick' else 80000, 17], nontrivial='chi_rows_torch')
+    # the measurement coin is one of the library's random sources: fresh and fair at every undetermined measurement (same check as in C06)
+    for it in range(int(40 * B)):
+        n = rng.randint(1, 4)
+        t = gen.rtableau(rng, ctx.model, n, depth=rng.choice([0, 0, 1, None]))
+        q = rng.randrange(n)
+        o = rng.choice([[[1 if j == 2 * q + 1 else 0 for j in range(2 * n)], 0], [[1 if j == 2 * q else 0 for j in range(2 * n)], 0]])
+        do(ctx, 'coin_fair', [t, o, rng.randrange(10 ** 6)], nontrivial=('coin', it) if t[1] > 0 else None)
